@@ -46,6 +46,12 @@ def make(rnd, k):
         body.append(['return', ['const', I(10 + i)]])
         funs.append({'name': name, 'kind': 'sync', 'sig': sig, 'stack': stack, 'body': body})
         impls.append(name)
+    # an implementation may call a sibling implementation registered in the same dispatcher (directly, not through the dispatcher)
+    simple = [f['name'] for f in funs[1:] if f['body'][0][0] != 'call']
+    for f in funs[1:]:
+        if f['body'][0][0] == 'call' and rnd.random() < .5:
+            cand = [n for n in simple if n != f['name']]
+            if cand: f['body'][0] = ['call', rnd.choice(cand), [['var', 'x']], []]
     driver = []
     for _ in range(rnd.randint(2, 4)):
         if rnd.random() < .2: driver.append(['switch', rnd.choice(['disable', 'enable'])])
@@ -97,10 +103,30 @@ def monitor(sc, obs):
             if bodies:
                 out.append((f'bodies ran although {chosen[1]} raised its custom precondition error: {bodies}', None)); break
         else:
-            if bodies != [chosen]:
-                out.append((f'x={x}: the first accepting implementation is {chosen}; bodies entered: {bodies}; outcome {act.outcome!r}', None)); break
             f = funs[chosen]
             first = f['body'][0]
+            if first[0] == 'call' and first[1] != 'inner':
+                # a direct call of a sibling implementation: its own contracts decide, and its precondition error is not a dispatch mismatch
+                g = funs[first[1]]
+                rej = None
+                for v in [it[1] for it in g['stack'] if it[0] == 'pre']:
+                    if pyeval.verdict(v, g['sig'], a[2], [])[0] != 'accept': rej = v; break
+                if rej is not None:
+                    cname = rej['exc'][1]['name'] if rej['exc'] else 'PreContractError'
+                    if bodies != [chosen] or not (act.kind == 'X' and act.exc_class == cname):
+                        out.append((f'x={x}: {chosen} calls its sibling {first[1]} whose precondition rejects: that error should propagate with only {chosen} entered; '
+                                    f'bodies {bodies}, outcome {act.outcome!r}', None)); break
+                else:
+                    gfirst = g['body'][0]
+                    if bodies != [chosen, first[1]]:
+                        out.append((f'x={x}: {chosen} calls its sibling {first[1]} which accepts; bodies entered: {bodies}; outcome {act.outcome!r}', None)); break
+                    if gfirst[0] == 'raise' and not (act.kind == 'X' and act.field('tag') == str(gfirst[2])):
+                        out.append((f'{first[1]} raises tag {gfirst[2]} inside {chosen}; the dispatched call gave {act.outcome!r}', None)); break
+                    if gfirst[0] == 'return' and not (act.kind == 'R' and act.value == f'i{f["body"][1][1][1]["i"]}'):
+                        out.append((f'{chosen} returns after its sibling call; the dispatched call gave {act.outcome!r}', None)); break
+                continue
+            if bodies != [chosen]:
+                out.append((f'x={x}: the first accepting implementation is {chosen}; bodies entered: {bodies}; outcome {act.outcome!r}', None)); break
             if first[0] == 'return' and not (act.kind == 'R' and act.value == f'i{first[1][1]["i"]}'):
                 out.append((f'{chosen} returns {first[1][1]["i"]} but the dispatched call gave {act.outcome!r}', None)); break
             if first[0] == 'raise' and not (act.kind == 'X' and act.field('tag') == str(first[2])):
